@@ -172,6 +172,9 @@ class PathCtx:
     def vec(self, name):
         return self.alg.out(name).reshape(-1)
 
+    def has_out(self, name):
+        return name in self.path.outs
+
     # ---- feasibility
     def nf_feasible(self):
         """False if the normal form alone refutes a decision; else True (= maybe)"""
@@ -204,7 +207,9 @@ class PathCtx:
 
     def z3_feasible(self, timeout_ms=20000):
         z = smt.Z3Ctx(self.alg, timeout_ms)
-        cs = z.base_constraints(self.extra_facts_z3(z)) + z.decisions(self.path)
+        dec = z.decisions(self.path)          # first: converting the decisions may create atoms
+        extra = self.extra_facts_z3(z)
+        cs = z.base_constraints(extra) + dec
         r, model, dt = z.check(cs)
         return r, model, dt
 
@@ -219,6 +224,8 @@ class PathCtx:
                 v = sample_spec_group(i.spec, rng, regime, ang)
             elif i.kind == "T":
                 v = sample_spec_tangent(i.spec, rng, regime, ang)
+            elif i.kind == "U":
+                v = _rand_unit(rng, i.size())
             else:
                 v = [mp.mpf(rng.uniform(-2, 2)) for _ in range(i.size())]
             for n, x in zip(i.names(), v):
@@ -402,7 +409,7 @@ class PathCtx:
             try:
                 gv = numeval.gen_values(alg, vals)
                 r = numeval.poly_value(alg, res, gv)
-            except (ZeroDivisionError, ValueError):
+            except (ZeroDivisionError, ValueError, TypeError):
                 continue
             if tau:
                 # tolerance relative to the size of the linear components of this input
@@ -584,8 +591,9 @@ class PathCtx:
                 self.rep.ok(oname, "SAFE", "sign")
                 continue
             z = smt.Z3Ctx(alg, timeout_ms)
-            cs = z.base_constraints(self.extra_facts_z3(z)) + z.decisions(self.path)
+            dec = z.decisions(self.path)
             e = z.expr(q)
+            cs = z.base_constraints(self.extra_facts_z3(z)) + dec
             cs.append(e < 0 if what == "sqrt_arg_nonneg" else e == 0)
             r, model, dt = z.check(cs)
             if r == "unsat":
